@@ -4,7 +4,12 @@
 
 package model
 
-import "github.com/basecomplextech/spec/internal/lang/syntax"
+import (
+	"fmt"
+	"math"
+
+	"github.com/basecomplextech/spec/internal/lang/syntax"
+)
 
 type EnumValue struct {
 	Enum *Enum
@@ -14,6 +19,9 @@ type EnumValue struct {
 }
 
 func parseEnumValue(enum *Enum, pval *syntax.EnumValue) (*EnumValue, error) {
+	if pval.Value < math.MinInt32 || pval.Value > math.MaxInt32 {
+		return nil, fmt.Errorf("enum value %d out of int32 range", pval.Value)
+	}
 	v := &EnumValue{
 		Enum:   enum,
 		Name:   pval.Name,
